@@ -10,7 +10,7 @@ def Out.isTs : Out → Bool
 
 theorem getTSLoop_obs (s : St) (m count fuel : Nat) :
     let r := getTSLoop s m count fuel
-    (∃ p l, r.2 = .ts (msOf p) l ∧ l = (r.1.mems m).logical ∧
+    (∃ p l, r.2 = .ts (msOf p) (l * 2 ^ s.cfg.bits + s.cfg.suffix) ∧ l = (r.1.mems m).logical ∧
         r.1.grants = ⟨m, msOf p, l - count, l, p, s.stored⟩ :: s.grants ∧ count ≤ l ∧ r.1.stored = s.stored)
     ∨ (r.2.isTs = false ∧ r.1.grants = s.grants ∧ r.1.stored = s.stored) := by
   induction fuel generalizing s with
@@ -90,7 +90,7 @@ theorem resetUser_obs (s : St) (m tms tlog : Nat) (ig : Bool) (f : Fault) :
 /-- a step either is a successful `getTS` – it then reports exactly the grant it logs – or it
     logs nothing and reports no timestamp -/
 theorem step_obs (s : St) (op : Op) :
-    (∃ m count p l, op = .getTS m count ∧ (step s op).2 = .ts (msOf p) l ∧
+    (∃ m count p l, op = .getTS m count ∧ (step s op).2 = .ts (msOf p) (l * 2 ^ s.cfg.bits + s.cfg.suffix) ∧
         (step s op).1.grants = ⟨m, msOf p, l - count, l, p, s.stored⟩ :: s.grants ∧ count ≤ l ∧ 0 < count ∧
         (step s op).1.stored = s.stored)
     ∨ ((step s op).2.isTs = false ∧ (step s op).1.grants = s.grants) := by
